@@ -189,7 +189,44 @@ func Scenario(c Cfg) {
 		}
 		errs(c, exx)
 	}
+	// a stateful predicate (true on its odd-numbered calls) and an input with runs of equal elements: the functions of this
+	// library's stages need not be pure, and the elements need not be distinct
+	calls := 0
+	alt := func(x int) (bool, error) { calls++; env.Log("call", x); return calls%2 == 1, nil }
+	first2 := func(x int) (bool, error) { calls++; env.Log("call", x); return calls <= 2, nil }
+	mkinRep := func(n int) <-chan int {
+		in := make(chan int, c.Cap)
+		go func() {
+			for i := 2; i < 2+2*n; i++ {
+				select {
+				case in <- i / 2: // 1 1 2 2 3 3 ...
+					env.Log("sent", i/2)
+				case <-ctx.Done():
+					close(in)
+					env.Log("in-closed")
+					return
+				}
+			}
+			closed.Add(1)
+			close(in)
+			env.Log("in-closed")
+		}()
+		return in
+	}
 	switch c.Stage {
+	case "filter-alt":
+		consume("got", pipe.Filter(ctx, mkin("sent", 1, c.K), pipe.Lift(alt)), c.Stop, 0, cancel)
+	case "takewhile-alt":
+		consume("got", pipe.TakeWhile(ctx, mkin("sent", 1, c.K), pipe.Lift(first2)), c.Stop, 0, cancel)
+	case "partition-alt":
+		l, r := pipe.Partition(ctx, mkin("sent", 1, c.K), pipe.Lift(alt))
+		consume("l", l, c.Stop, 0, cancel, c.Late, c.LateAt)
+		consume("r", r, c.Stop2, 0, cancel)
+	case "foreach-rep":
+		consume("done", pipe.ForEach(ctx, mkinRep(c.K), pipe.Pure(func(x int) int { env.Log("call", x); return x })), -1, 0, cancel)
+	case "map-rep":
+		// the function numbers its calls: the images of a run of equal elements are as many different numbers
+		out2(pipe.Map(ctx, mkinRep(c.K), pipe.Pure(func(x int) int { calls++; env.Log("call", x); return calls })))
 	case "map":
 		out2(pipe.Map(ctx, mkin("sent", 1, c.K), lift()))
 	case "map2":
